@@ -362,6 +362,20 @@ pub fn run_program(pid: u64, prog: &Value) -> Vec<Value> {
     }
     recs.push(ev);
   }
+  // sequential calls after the threads have finished: what the caches hold now
+  if !deadlocked {
+    if let Some(after) = prog["after"].as_array() {
+      drop(g);
+      let mut machine = Machine::new();
+      machine.regs = (*shared).clone();
+      for step in after {
+        let mut rec = machine.step(pid, step);
+        rec["after"] = json!(true);
+        recs.push(rec);
+      }
+      g = s.m.lock().unwrap();
+    }
+  }
   recs.push(json!({"op": "conc_end", "pid": pid, "oc": "ok", "outcome": outcome, "probe": probe,
                    "scheduled": next, "schedule_len": schedule.len(), "extra": extra}));
   if deadlocked {
